@@ -2,14 +2,11 @@
 package c07
 
 import (
-	"bufio"
 	"bytes"
 	"errors"
 	"fmt"
 	"io"
-	"os"
 	"path/filepath"
-	"strings"
 	"sync"
 	"sync/atomic"
 	"testing"
@@ -43,46 +40,10 @@ type Case struct {
 	StdKind string `json:"std_kind,omitempty"`
 }
 
-var stdKinds = []string{"bytes.Reader", "bytes.Buffer", "strings.Reader", "bufio.Reader", "os.File", "io.SectionReader"}
+var stdKinds = src.StdKinds
 
-// stdSource builds a standard-library reader holding prefix+data, positioned just after the prefix; remaining()
-// reports how many input bytes it has not handed out yet (-1 if unknown).
-func stdSource(kind string, prefix int, data []byte) (r io.Reader, remaining func() int, cleanup func()) {
-	all := append(bytes.Repeat([]byte("CONTAINER-HEADER "), prefix/17+1)[:prefix], data...)
-	cleanup = func() {}
-	switch kind {
-	case "bytes.Buffer":
-		b := bytes.NewBuffer(all)
-		b.Next(prefix)
-		return b, b.Len, cleanup
-	case "strings.Reader":
-		sr := strings.NewReader(string(all))
-		_, _ = sr.Seek(int64(prefix), io.SeekStart)
-		return sr, sr.Len, cleanup
-	case "bufio.Reader":
-		br := bufio.NewReaderSize(bytes.NewReader(all), 64)
-		_, _ = br.Discard(prefix)
-		return br, func() int { return -1 }, cleanup
-	case "os.File":
-		dir := filepath.Join(ev.Root(), "out", "run", "C07")
-		_ = os.MkdirAll(dir, 0o755)
-		f, err := os.CreateTemp(dir, "src-*")
-		if err != nil {
-			br := bytes.NewReader(all)
-			_, _ = br.Seek(int64(prefix), io.SeekStart)
-			return br, br.Len, cleanup
-		}
-		_, _ = f.Write(all)
-		_, _ = f.Seek(int64(prefix), io.SeekStart)
-		return f, func() int { return -1 }, func() { f.Close(); os.Remove(f.Name()) }
-	case "io.SectionReader":
-		sr := io.NewSectionReader(bytes.NewReader(all), 0, int64(len(all)))
-		_, _ = sr.Seek(int64(prefix), io.SeekStart)
-		return sr, func() int { return -1 }, cleanup
-	}
-	br := bytes.NewReader(all)
-	_, _ = br.Seek(int64(prefix), io.SeekStart)
-	return br, br.Len, cleanup
+func stdSource(kind string, prefix int, data []byte) (io.Reader, func() int, func()) {
+	return src.Std(kind, prefix, data, filepath.Join(ev.Root(), "out", "run", "C07"))
 }
 
 func drain(r io.Reader, sizes []int, limit int) (out []byte, err error, stalled bool) {
@@ -345,6 +306,60 @@ func TestC07(t *testing.T) {
 	ev.Sample(map[string]any{"seed": inputs[2].name, "bytes": len(inputs[2].data), "positions_enumerated": len(inputs[2].pos), "example": "truncate at 57 / fault at 57 with data, source schedule [7], loader auto"})
 	ev.Sample(map[string]any{"seed": inputs[3].name, "bytes": len(inputs[3].data), "positions_enumerated": len(inputs[3].pos)})
 
+	// very large inputs (lazy source, streamed comparison): a PNG whose first ancillary chunk is 1 MiB / 5 MiB
+	// (quick) or 33 / 65 / 129 MiB (thorough) long, so that the loaders buffer that much before they can decide
+	sizes := []int64{1<<20 + 3, 5 << 20}
+	if ev.Thorough() {
+		sizes = append(sizes, 33<<20, 65<<20, 129<<20)
+	}
+	for _, n := range sizes {
+		head := append([]byte{0x89, 'P', 'N', 'G', 0x0D, 0x0A, 0x1A, 0x0A, 0, 0, 0, 13, 'I', 'H', 'D', 'R', 0, 0, 0, 9, 0, 0, 0, 9, 8, 2, 0, 0, 0, 1, 2, 3, 4},
+			byte(n>>24), byte(n>>16), byte(n>>8), byte(n), 't', 'E', 'X', 't')
+		for _, loader := range []string{"png", "auto"} {
+			s := &src.Source{Data: head, Tail: n + 4 + 12 + 100, FaultAt: -1, Sizes: []int{65536}}
+			o := ld.Run(loader, s)
+			ev.Eval(1)
+			ev.NT(ev.Hash("large", n, loader))
+			total := int64(len(head)) + s.Tail
+			var got int64
+			bad := ""
+			if o.Stream == nil {
+				bad = "nil stream"
+			} else {
+				buf := make([]byte, 1<<16)
+				for bad == "" {
+					k, err := o.Stream.Read(buf)
+					for i := 0; i < k; i++ {
+						pos := got + int64(i)
+						want := byte(0)
+						if pos < int64(len(head)) {
+							want = head[pos]
+						} else {
+							want = src.TailByte(pos - int64(len(head)))
+						}
+						if buf[i] != want {
+							bad = fmt.Sprintf("byte %d of the replayed stream is %#x, the source delivered %#x", pos, buf[i], want)
+							break
+						}
+					}
+					got += int64(k)
+					if err != nil {
+						if err != io.EOF {
+							bad = "stream error " + err.Error()
+						}
+						break
+					}
+				}
+			}
+			if bad == "" && got != total {
+				bad = fmt.Sprintf("stream yields %d bytes, the source has %d (%d lost)", got, total, total-got)
+			}
+			if bad != "" || o.Panic != "" {
+				ev.Violation("stream", loader+"/large-input", fmt.Sprintf("PNG with a %d-byte ancillary chunk before IDAT through %s: %s %s", n, loader, bad, o.Panic), map[string]any{"chunk_bytes": n, "loader": loader})
+			}
+		}
+	}
+	ev.Class("large-inputs", int64(2*len(sizes)))
 	// rapid: generated files, rapid schedules and drains
 	ev.RapidChecks(ev.Pick(3000, 100000))
 	ev.RapidSeed(7)
